@@ -8,7 +8,8 @@
 //
 //	reset <inlineLimit>                                            => ok
 //	grpc <dir> <name> <inline|chunks|nofs|bigfs> <chunk> <body>    => <entry>      (FilerServer.CreateEntry, the gRPC handler)
-//	put|post|postd|postraw <dir> <name> <append> <chunk> <failAt> <body> => <status> <entry>
+//	put|post|postd|postraw|putnet <dir> <name> <append> <chunk> <failAt> <body> => <status> <entry>
+//	   (putnet = put over a real loopback connection; a failing body is a connection the client closes early)
 //	pub <bytes> <failAt>                                           => same | differ:..   (public PostHandler ?maxMB=1 vs hook path at 1<<20)
 //
 // <dir> is `d` (plain directory) or `etc` (below /etc, the filer.DirectoryEtcRoot special case).
@@ -28,6 +29,7 @@ import (
 	"io"
 	"math"
 	"mime/multipart"
+	"net"
 	"net/http"
 	"net/http/httptest"
 	"os"
@@ -293,11 +295,70 @@ func buildRequest(method, dir, name string, isAppend bool, failAt int, body []by
 func opWrite(method, dir, name string, isAppend bool, chunk int, failAt int, body []byte) {
 	opNo++
 	tr.Op(method, []string{dir, name, hx.B(isAppend), strconv.Itoa(chunk), strconv.Itoa(failAt), hx.Hex(body)}, hx.Guard(func() []string {
+		if method == "putnet" {
+			return append([]string{strconv.Itoa(putOverNet(realPath(dir, name), isAppend, chunk, failAt, body))}, dump(realPath(dir, name))...)
+		}
 		r, path := buildRequest(method, dir, name, isAppend, failAt, body)
 		w := httptest.NewRecorder()
 		fsrv.VerifPostHandlerChunkBytes(w, r, r.ContentLength, int32(chunk))
 		return append([]string{strconv.Itoa(w.Code)}, dump(path)...)
 	}))
+}
+
+// ---- putnet: the same PUT over a real loopback connection; a failing body = the client sends failAt of the
+// announced Content-Length bytes and closes the connection (the server's r.Body.Read then fails)
+
+type statusRecorder struct {
+	http.ResponseWriter
+	code int
+}
+
+func (s *statusRecorder) WriteHeader(c int) { s.code = c; s.ResponseWriter.WriteHeader(c) }
+func (s *statusRecorder) Write(b []byte) (int, error) {
+	if s.code == 0 {
+		s.code = 200
+	}
+	return s.ResponseWriter.Write(b)
+}
+
+var (
+	netSrv  *httptest.Server
+	netDone = make(chan int, 16)
+)
+
+func netHandler(w http.ResponseWriter, r *http.Request) {
+	chunk, _ := strconv.Atoi(r.Header.Get("X-Verif-Chunk"))
+	rec := &statusRecorder{ResponseWriter: w}
+	fsrv.VerifPostHandlerChunkBytes(rec, r, r.ContentLength, int32(chunk))
+	netDone <- rec.code
+}
+
+func putOverNet(path string, isAppend bool, chunk int, failAt int, body []byte) int {
+	if netSrv == nil {
+		netSrv = httptest.NewServer(http.HandlerFunc(netHandler))
+	}
+	conn, err := net.Dial("tcp", netSrv.Listener.Addr().String())
+	if err != nil {
+		return -1
+	}
+	defer conn.Close()
+	url := path
+	if isAppend {
+		url += "?op=append"
+	}
+	fmt.Fprintf(conn, "PUT %s HTTP/1.1\r\nHost: verif\r\nContent-Length: %d\r\nX-Verif-Chunk: %d\r\n\r\n", url, len(body), chunk)
+	if failAt >= 0 {
+		conn.Write(body[:failAt])
+		conn.(*net.TCPConn).CloseWrite()
+	} else {
+		conn.Write(body)
+	}
+	select {
+	case code := <-netDone:
+		return code
+	case <-time.After(20 * time.Second):
+		return -2
+	}
 }
 
 func pattern(n int, salt byte) []byte {
@@ -352,7 +413,7 @@ func exec(w []string) {
 		opReset(int64(atoi(w[1])))
 	case "grpc":
 		opGrpc(w[1], w[2], w[3], atoi(w[4]), hx.UnHex(w[5]))
-	case "put", "post", "postd", "postraw":
+	case "put", "post", "postd", "postraw", "putnet":
 		opWrite(w[0], w[1], w[2], w[3] == "1", atoi(w[4]), atoi(w[5]), hx.UnHex(w[6]))
 	case "pub":
 		opPub(atoi(w[1]), atoi(w[2]))
@@ -413,7 +474,7 @@ func (g *gen) failAt(n, chunk int) int {
 	}
 }
 
-var methods = []string{"put", "put", "post", "postd", "put", "post"}
+var methods = []string{"put", "put", "post", "postd", "putnet", "post"}
 
 func (g *gen) oneCase() {
 	limit := []int64{0, 8, 16}[g.r.Intn(3)]
